@@ -17,6 +17,15 @@ CASES = [
  ("C03", "basic/topn.py", "            n = self.config.n or -1", "            n = self.config.n if self.config.n is not None else -1", "break"),
  ("C03", "basic/history.py", "        if query.user_id is None:\n            return query\n\n        if query.user_items is None:", "        if query.user_id and query.user_items is None:", "break"),
  ("C03", "basic/history.py", "        if query.user_id is None:\n            return query\n\n        if query.user_items is None:", "        if query.user_id is not None and query.user_items is None:", "keep"),
+ ("C05", "splitting/records.py", "        return crossfold_records(data, repeats, test_only=test_only, rng=rng)", "        return crossfold_records(data, repeats, test_only=test_only)", "break"),
+ ("C05", "splitting/users.py", "        return crossfold_users(data, repeats, method, test_only=test_only, rng=rng)", "        return crossfold_users(data, repeats, method, rng=rng)", "break"),
+ ("C05", "splitting/records.py", "    if repeats is None:\n        test_pos", "    if not repeats:\n        test_pos", "break"),
+ ("C05", "splitting/users.py", "    if disjoint and repeats is not None and repeats * size >= len(users):", "    if repeats is not None and disjoint and repeats * size >= len(users):", "keep"),
+ ("C06", "metrics/ranking/_base.py", "        if self.k is not None:\n            if not items.ordered:", "        if self.k:\n            if not items.ordered:", "keep"),
+ ("C06", "metrics/ranking/_base.py", "            if len(items) > self.k:", "            if len(items) >= self.k:", "keep"),
+ ("C06", "metrics/ranking/_base.py", "            if len(items) > self.k:", "            if len(items) > self.k + 1:", "break"),
+ ("C06", "metrics/ranking/_pr.py", "        if self.k is not None and self.k < nrel:", "        if self.k is not None and self.k > nrel:", "break"),
+ ("C06", "metrics/ranking/_dcg.py", "            if self.k and self.k < n:", "            if self.k is not None and self.k <= n:", "keep"),
  ("C07", "metrics/bulk.py", "                elif list_test is None:", "                elif not list_test:", "break"),
  ("C08", "basic/bias.py", "            elif user_id is not None:", "            elif user_id:", "break"),
  ("C09", "knn/user.py", "        if uidx is not None:", "        if uidx:", "break"),
